@@ -11,6 +11,7 @@ import (
 	"strings"
 	"sync"
 
+	"verifharness/internal/bin"
 	"verifharness/internal/choose"
 	"verifharness/internal/ev"
 	"verifharness/internal/pool"
@@ -126,6 +127,14 @@ func c03Specs(tier string) []gspec {
 			}
 			g := maskGraphNames(n, m, pnames)
 			g.ReqMaxLen, g.ReqRepeat, g.OrderBound, g.Family = 2, false, -1, "names-prefix-of-each-other"
+			out = append(out, g)
+		}
+	}
+	// task names that read like something spok itself might treat specially
+	for _, names := range [][]string{{"clean", "dep", "build"}, {"help", "default", "version"}, {"init", "show", "fmt"}} {
+		for m := uint32(0); m < 1<<9; m++ {
+			g := maskGraphNames(3, m, names)
+			g.ReqMaxLen, g.ReqRepeat, g.OrderBound, g.Family = 2, false, 1, "names-like-commands"
 			out = append(out, g)
 		}
 	}
@@ -554,6 +563,7 @@ func c03Check(tier string) int {
 	for _, s := range total.Samples {
 		run.Sample(map[string]any{"graph": depString(s.Spec), "request": s.Request, "failing": s.Failing})
 	}
+	run.Set("binary_invocations", c03Binary(run))
 	run.Set("states", total.Cases)
 	run.Set("transitions", total.Execs)
 	run.Set("traces_validated_against_impl", total.Execs)
@@ -567,7 +577,65 @@ func c03Check(tier string) int {
 	return run.Finish()
 }
 
+// c03Binary: the request as the command line hands it over. A task whose name reads like a
+// sub-command or a flag of spok is requested alone, after another task and before one; it
+// and its dependency must run, dependency first.
+func c03Binary(run *ev.Run) int64 {
+	words := []string{"help", "version", "init", "clean", "default", "fmt", "show", "vars", "completion", "spok", "force", "json", "quiet", "debug", "spokfile", "h", "V"}
+	root := filepath.Join(pool.Scratch, "c03bin")
+	t := bin.Tree{Root: root}
+	var calls int64
+	for _, w := range words {
+		text := fmt.Sprintf("task dep() {\n    echo dep >> \"$VLOG\"\n}\n\ntask other() {\n    echo other >> \"$VLOG\"\n}\n\ntask %s(dep) {\n    echo %s >> \"$VLOG\"\n}\n", w, w)
+		for _, req := range [][]string{{w}, {"other", w}, {w, "other"}, {"--quiet", w}} {
+			t.Reset()
+			proj := t.Mkdir("home/w/proj")
+			ctl := t.Mkdir("ctl")
+			t.File("home/w/proj/spokfile", text)
+			vlog := filepath.Join(ctl, "vlog")
+			o := bin.Run(proj, filepath.Join(root, "home"), []string{"VLOG=" + vlog}, req...)
+			calls++
+			log := readLog(vlog)
+			pos := map[string]int{}
+			for i, l := range log {
+				if _, seen := pos[l]; seen {
+					pos[l] = -2 // twice
+				} else {
+					pos[l] = i
+				}
+			}
+			key := fmt.Sprintf("binary %v", req)
+			c := map[string]any{"binary_request": req, "word": w}
+			dp, okd := pos["dep"]
+			wp, okw := pos[w]
+			switch {
+			case o.Died():
+				run.Report(ev.Violation{Key: key, Class: "process-crash", What: fmt.Sprintf("`spok %s`: died (signal %s)", strings.Join(req, " "), o.Signal), Case: c})
+			case o.Exit != 0:
+				run.Report(ev.Violation{Key: key, Class: "valid-request-rejected", What: fmt.Sprintf("`spok %s` with tasks dep, other, %s(dep) defined: exit %d: %s", strings.Join(req, " "), w, o.Exit, firstLines(o.Stderr, 2)), Case: c})
+			case !okw || !okd:
+				run.Report(ev.Violation{Key: key, Class: "task-left-out", What: fmt.Sprintf("`spok %s` exited 0 but the commands that ran were %v: task %s and its dependency dep were requested", strings.Join(req, " "), log, w), Case: c})
+			case dp < 0 || wp < 0:
+				run.Report(ev.Violation{Key: key, Class: "ran-twice", What: fmt.Sprintf("`spok %s`: commands ran %v", strings.Join(req, " "), log), Case: c})
+			case dp > wp:
+				run.Report(ev.Violation{Key: key, Class: "order", What: fmt.Sprintf("`spok %s`: %s started before its dependency: %v", strings.Join(req, " "), w, log), Case: c})
+			}
+		}
+	}
+	os.RemoveAll(root)
+	return calls
+}
+
 func c03Replay(path string) int {
+	{
+		var v ev.Violation
+		data, _ := os.ReadFile(path)
+		json.Unmarshal(data, &v)
+		if _, isBin := v.Case["binary_request"]; isBin {
+			fmt.Println("this finding came from the command-line part of C03 (a handful of invocations): re-run the check")
+			return 2
+		}
+	}
 	var v ev.Violation
 	data, _ := os.ReadFile(path)
 	json.Unmarshal(data, &v)
